@@ -200,8 +200,38 @@ class MCNP_Lexer(Lexer):
         A ZAID isotope definition in the MCNP format.
 
         E.g.: ``1001.80c``.
+
+        ``4145.81m`` is a nuclide (of a multigroup library) only on an input that lists nuclides; anywhere
+        else (a surface constant, VOL, IMP, a cell parameter ...) it is the multiply shortcut of ``4145.81``.
         """
+        if (
+            t.value[-1] in "mM"
+            and t.value[-2].isdigit()
+            and not self._lists_nuclides(t)
+        ):
+            t.type = "NUM_MULTIPLY"
         return t
+
+    _NUCLIDE_INPUTS = re.compile(r"\*?((m|mx|mpn|xs)\d+|awtab|drxs)(:|$)", re.I)
+    """
+    The names of the data inputs that hold nuclide identifiers.
+    """
+
+    def _lists_nuclides(self, t):
+        """
+        Whether the input being read is one that lists nuclides (M, MX, MPN, XS, AWTAB, DRXS).
+
+        :param t: the token being classified
+        :type t: sly.lex.Token
+        :rtype: bool
+        """
+        # the first word of the input proper: comment lines may precede it
+        for line in self.text[: t.index].split("\n"):
+            if not is_comment(line):
+                words = line.split("$")[0].split()
+                if words:
+                    return self._NUCLIDE_INPUTS.match(words[0]) is not None
+        return False
 
     # note: / is not escaping - since this doesn't not need escape in this position
     THERMAL_LAW = r"[a-z][a-z\d/-]+\.\d+[a-z]"
